@@ -180,7 +180,20 @@ pub fn configs(ctx: &Ctx) -> Vec<DistSpec> {
     }
     v.extend(env::geom_specs());
     v.extend(env::weighted_specs());
+    if ctx.property == "C05" {
+        // beyond-E extremes: termination only (last clause of C05)
+        v.extend(env::extreme_specs());
+    }
     v
+}
+
+/// number of regular (in-E) configurations; the rest are beyond-E extremes
+fn n_regular(ctx: &Ctx) -> usize {
+    if ctx.property == "C05" {
+        configs(ctx).len() - env::extreme_specs().len()
+    } else {
+        usize::MAX
+    }
 }
 
 /// Outcome of one stream run (several sample() calls on one stream).
@@ -527,7 +540,14 @@ impl Engine for FaultEngine {
     fn run_case(&self, ctx: &Ctx, index: usize) -> CaseResult {
         let cfgs = configs(ctx);
         let spec = &cfgs[index];
-        let pr = params(ctx);
+        let mut pr = params(ctx);
+        let extreme = index >= n_regular(ctx);
+        if extreme {
+            // beyond E: a short exploration, judged for termination only
+            pr.positions = 4;
+            pr.seeds = 1;
+            pr.random_calls = 2_000;
+        }
         let mut res = CaseResult::new(index);
         let mut d = Digest::new();
         let obj = match build_caught(spec) {
@@ -586,7 +606,7 @@ impl Engine for FaultEngine {
         }
 
         // ---- (B) full 2^24 sweep for f32 draws -----------------------------------
-        if sweep_wanted(spec, pr.sweep_all_f32) && (ctx.tier == Tier::Thorough || index < self_grid_limit(&cfgs, index)) {
+        if !extreme && sweep_wanted(spec, pr.sweep_all_f32) && (ctx.tier == Tier::Thorough || index < self_grid_limit(&cfgs, index)) {
             for &pos in &pr.sweep_positions {
                 let seed = mix(&[ctx.seed, index as u64, 0x5EE9, pos]);
                 // find the call that contains stream position `pos` (prefix calls never
@@ -828,7 +848,7 @@ impl Engine for FaultEngine {
                     max_calls: o.violating_call + 1,
                 };
                 self.report(&mut res, &mut seen, obj, spec, &run, &o);
-            } else if mean > MEAN_WORDS_BOUND * out_dim(spec) && self.prop == "C05" {
+            } else if mean > MEAN_WORDS_BOUND * out_dim(spec) && self.prop == "C05" && !extreme {
                 let run = FaultRun {
                     kind: "mean-words".into(),
                     spec: spec.clone(),
@@ -853,6 +873,9 @@ impl Engine for FaultEngine {
         res.keys = keys.into_iter().collect();
         res.digest = d.0;
         res.notes.push(format!("label={label}"));
+        if extreme {
+            res.stat_sum("beyond_E_extreme_configurations(termination_only)", 1.0);
+        }
         if index % 97 == 0 || !res.violations.is_empty() {
             res.samples.push(json!({
                 "configuration": label,
@@ -956,7 +979,12 @@ fn skip_set() -> BTreeSet<(u64, u64)> {
 
 /// Reconstruct run number `run_id` of case `index` (same numbering as `run_case`).
 fn nth_run(ctx: &Ctx, spec: &DistSpec, index: usize, run_id: u64) -> Option<FaultRun> {
-    let pr = params(ctx);
+    let mut pr = params(ctx);
+    if index >= n_regular(ctx) {
+        pr.positions = 4;
+        pr.seeds = 1;
+        pr.random_calls = 2_000;
+    }
     let lattice = boundary_lattice();
     let l = lattice.len() as u64;
     let a_total = pr.positions * l * pr.seeds;
@@ -981,7 +1009,7 @@ fn nth_run(ctx: &Ctx, spec: &DistSpec, index: usize, run_id: u64) -> Option<Faul
     // sweeps are numbered in blocks of 4096 values; report the block start (the replay
     // then covers the first value of the block; the hang is re-found by the sweep itself)
     let mut rid = a_total;
-    if sweep_wanted(spec, pr.sweep_all_f32) {
+    if index < n_regular(ctx) && sweep_wanted(spec, pr.sweep_all_f32) {
         for &pos in &pr.sweep_positions {
             let blocks = (1u64 << 24) >> 12;
             if run_id <= rid + blocks {
